@@ -33,6 +33,10 @@ type zvC11Uni struct {
 	// too): 3 = exactly as many identifiers as there are distinct attribute sets, so allocation must never fail;
 	// 1, 2 = exhaustion is reachable, allocation may fail only while that many identifiers are really in use
 	Limit uint32 `json:"identifier_space,omitempty"`
+	// Wrap: the allocator starts two steps before its counter wraps around (a non-initial state: the daemon has handed
+	// out 2^32 identifiers before), so that identifiers are reused within short histories; such universes also contain
+	// withdrawals of a path a prefix does not hold while another prefix advertises the same attributes ("rmx")
+	Wrap bool `json:"allocator_near_wrap,omitempty"`
 }
 
 type zvC11Case struct {
@@ -142,6 +146,9 @@ func zvC11Step(r *vh.Run, u zvC11Uni, hist []zvC11Op) (string, []zvC11Op, bool) 
 	rec := &zvoRec{}
 	a := New(nil, zvC11Session(u.Session), filter.NewAcceptAllFilterChain())
 	a.Register(rec)
+	if u.Wrap {
+		a.pathIDManager.last = ^uint32(0) - 2
+	}
 	paths := zvC11Paths(u)
 
 	// model
@@ -245,6 +252,18 @@ func zvC11Step(r *vh.Run, u zvC11Uni, hist []zvC11Op) (string, []zvC11Op, bool) 
 				break
 			}
 			view[o.P][v.PathID] = v
+		case "rmx":
+			// withdrawal of a path this prefix does not hold: nothing may happen (the Loc-RIB issues such calls)
+			if p, what := vh.Try(func() { a.RemovePath(zvC11Pfxs[o.P], paths[o.X]) }); p {
+				viol(vh.Sig("clause", "panic", "op", "rmx"), "RemovePath of a path the prefix does not hold panicked: %s", what)
+				break
+			}
+			if last {
+				r.Count("withdrawal_of_path_not_held", 1)
+			}
+			if calls := rec.take(); len(calls) != 0 {
+				viol(vh.Sig("clause", "calls_on_noop_withdrawal"), "prefix %s does not hold path %d, but its withdrawal made the session call its client: %v", pfxS, o.X, calls)
+			}
 		case "rm":
 			if p, what := vh.Try(func() { a.RemovePath(zvC11Pfxs[o.P], paths[o.X]) }); p {
 				viol(vh.Sig("clause", "panic", "op", "rm"), "RemovePath panicked: %s", what)
@@ -311,6 +330,31 @@ func zvC11Step(r *vh.Run, u zvC11Uni, hist []zvC11Op) (string, []zvC11Op, bool) 
 			}
 		}
 	}
+	// state oracle 2: the allocator's reference counts agree with the table - an identifier is in use exactly as often
+	// as stored paths carry it (an identifier released while a path still carries it leads to withdrawals without or
+	// with another identifier, and to the identifier being handed out again)
+	if ok {
+		cnt := map[uint32]uint64{}
+		for _, e := range stored {
+			cnt[e.v.PathID]++
+		}
+		m := a.pathIDManager
+		for id, n := range m.ids {
+			if cnt[id] != n {
+				ok = false
+				r.Violation(vh.Sig("clause", "identifier_bookkeeping", "kind", "refcount"), c,
+					"["+u.Session+" session] identifier %d is counted %d times by the allocator but carried by %d stored paths", id, n, cnt[id])
+				break
+			}
+		}
+		for id, n := range cnt {
+			if _, known := m.ids[id]; !known && ok {
+				ok = false
+				r.Violation(vh.Sig("clause", "identifier_bookkeeping", "kind", "released_while_in_use"), c,
+					"["+u.Session+" session] identifier %d is carried by %d stored paths but the allocator has released it", id, n)
+			}
+		}
+	}
 	if !ok {
 		return "dead:" + fmt.Sprint(hist), nil, false
 	}
@@ -374,6 +418,14 @@ func zvC11Step(r *vh.Run, u zvC11Uni, hist []zvC11Op) (string, []zvC11Op, bool) 
 				en = append(en, zvC11Op{"rm", p, x})
 			} else {
 				en = append(en, zvC11Op{"add", p, x}) // adding an attribute-identical path twice to one prefix is not in the alphabet
+				if u.Wrap && x != 1 {
+					for q := 0; q < u.NPfx; q++ {
+						if q != p && present[q][zvC11Class[x]] {
+							en = append(en, zvC11Op{"rmx", p, x})
+							break
+						}
+					}
+				}
 			}
 		}
 	}
@@ -396,10 +448,10 @@ func zvC11Universes(thorough bool) []zvC11Uni {
 		for _, p2 := range []string{"otc", "unknown_attr", "aggregator", "atomic_aggregate"} {
 			for _, p3 := range []string{"community", "as_path_content", "med"} {
 				if thorough || (p3 == "community" && (s == "ibgp" || s == "ebgp")) {
-					big = append(big, zvC11Uni{s, p2, p3, 3, 3})
+					big = append(big, zvC11Uni{s, p2, p3, 3, 3, false})
 				}
 				if !thorough {
-					small = append(small, zvC11Uni{s, p2, p3, 2, 3})
+					small = append(small, zvC11Uni{s, p2, p3, 2, 3, false})
 				}
 			}
 		}
@@ -414,14 +466,18 @@ func zvC11Universes(thorough bool) []zvC11Uni {
 	var tight []zvC11Uni
 	for _, s := range []string{"ibgp", "ebgp"} {
 		for _, l := range []uint32{1, 2} {
-			tight = append(tight, zvC11Uni{s, "otc", "community", 2, l})
+			tight = append(tight, zvC11Uni{s, "otc", "community", 2, l, false})
 		}
+	}
+	// the allocator about to wrap around, with no-op withdrawals in the alphabet
+	for _, s := range []string{"ibgp", "ebgp"} {
+		tight = append(tight, zvC11Uni{s, "otc", "community", 2, 3, true})
 	}
 	return append(append(big, small...), tight...) // the expensive ones first: they spread evenly over the shards
 }
 
 var zvC11Required = []string{"same_hash_different_attrs_on_one_prefix", "withdrawal_with_sibling_on_prefix", "release_of_shared_identifier",
-	"identifier_shared_by_prefixes", "withdrawals_checked", "genuine_exhaustion", "allocation_of_last_free_identifier"}
+	"identifier_shared_by_prefixes", "withdrawals_checked", "genuine_exhaustion", "allocation_of_last_free_identifier", "withdrawal_of_path_not_held"}
 
 func TestVerifC11(t *testing.T) {
 	r := vh.Start(t, "C11")
@@ -429,6 +485,7 @@ func TestVerifC11(t *testing.T) {
 	zvoTune()
 	r.Rule("per universe (session kind ibgp|rs-client|ebgp|rr-client x attribute in which path 2 differs from path 0 outside ComputeHash x attribute in which path 3 differs), " +
 		"identifier space 3 (= number of distinct attribute sets: allocation must never fail) plus universes with identifier space 1 and 2 (allocation may fail only while that many identifiers are in use), " +
+		"two universes with the allocator's counter about to wrap around and withdrawals of paths a prefix does not hold in the alphabet; " +
 		"BFS over all AddPath/RemovePath histories of 4 Loc-RIB paths (0 and 1 attribute-identical) on 3 prefixes (quick: 2 prefixes for every universe, 3 prefixes for 8 of them) against a real add-path AdjRIBOut until the canonical state " +
 		"(model, table, peer view, private pathIDManager maps and counters; identifiers ranked) set closes; evaluations = universes explored")
 	r.Require(zvC11Required...)
